@@ -36,6 +36,7 @@ theorem download_tail (M : Nat) (cached : Packet) (szx : Nat)
     (hcs : cached.options.Sorted) (hck : ∀ kv ∈ cached.options, kv.1 ≤ 65535) :
     ∀ (reqs : List Request) (k : Nat) (st : BlockState),
       st.cachedResponse = some cached →
+      (∀ x, st.cachedSzx = some x → szx ≤ x) →
       (∀ i (h : i < reqs.length), IsFollowUp M reqs[i] (k + i) szx) →
       reqs ≠ [] →
       (k + reqs.length - 1) * 2 ^ (szx + 4) < cached.payload.length →
@@ -45,9 +46,9 @@ theorem download_tail (M : Nat) (cached : Packet) (szx : Nat)
       (fetchAll M reqs st).2.cachedResponse = none := by
   intro reqs
   induction reqs with
-  | nil => intro k st _ _ hne; exact absurd rfl hne
+  | nil => intro k st _ _ _ hne; exact absurd rfl hne
   | cons r rs ih =>
-    intro k st hst hfu _ hlast hcover
+    intro k st hst hle hfu _ hlast hcover
     have h0 := hfu 0 (by simp)
     simp only [List.getElem_cons_zero, Nat.add_zero] at h0
     obtain ⟨sz, hsz, hneg⟩ := h0.small
@@ -67,7 +68,7 @@ theorem download_tail (M : Nat) (cached : Packet) (szx : Nat)
     obtain ⟨resp', hcore, hpay, -, -, -, -⟩ :=
       follow_up_served r resp st { num := k, more := m, szx := szx } cached
         ((cached.payload.drop (k * S)).take S) (decide ((k + 1) * S < cached.payload.length)) M sz
-        h0.nob1 hsz hneg hb2 hst hresp hrs hcs hck (by rw [hsize]; exact hchunk)
+        h0.nob1 hsz hneg hb2 hst hresp hrs hcs hck (by rw [hsize]; exact hchunk) hle
     have hfa : fetchAll M (r :: rs) st =
         ((((coreRequest M r st).1.response.map (·.payload)).getD [], (coreRequest M r st).2.2) ::
           (fetchAll M rs (coreRequest M r st).2.1).1, (fetchAll M rs (coreRequest M r st).2.1).2) := rfl
@@ -99,7 +100,7 @@ theorem download_tail (M : Nat) (cached : Packet) (szx : Nat)
         exact Nat.lt_of_le_of_lt (Nat.mul_le_mul_right S this) hlast
       simp only [hmore, decide_true, if_true]
       have ih' := ih (k + 1) { st with lastBlock2 := some { num := k, more := m, szx := szx }, cachedResponse := some cached }
-        rfl
+        rfl hle
         (by
           intro i hi
           have := hfu (i + 1) (by simp at hi ⊢; omega)
